@@ -526,6 +526,12 @@ func vfC37Run(t *testing.T, cs vfC37Case, out *vfC37Out, isKnown func(string) bo
 				return m
 			}
 		}
+		if c, _ := closed(); c {
+			// close() waits up to 5 s (virtual) for every in-flight subscribe while holding connectMu; a callback completed
+			// inside that window spawns a second close() that blocks on the mutex, which a synctest bubble cannot wait out.
+			time.Sleep(time.Duration(6*(len(parked)+1)) * time.Second)
+			vfSettle()
+		}
 		// complete everything still parked, in the drawn order
 		for i := 0; len(parked) > 0; i++ {
 			p := parked[cs.FinalOrder[i%len(cs.FinalOrder)]%len(parked)]
